@@ -6,7 +6,7 @@
 use crate::gen::ModelData;
 use vaporetto::{Model, Predictor, Sentence, SolverType, Trainer};
 
-const CORPORA: [&[&str]; 9] = [
+const CORPORA: [&[&str]; 10] = [
     &["火星 猫 だ", "これ は 猫 です", "a b c ab", "猫 と 火星 人", "ab c ab c", "です から 猫 だ"],
     &["火星/名詞 猫/名詞 だ/助動詞", "これ/代名詞 は/助詞 猫/名詞 です/助動詞", "猫/動物 だ/助動詞"],
     // no word boundary anywhere: every sentence is one token
@@ -25,6 +25,11 @@ const CORPORA: [&[&str]; 9] = [
     &["a", "猫"],
     // partially annotated sentences mixed with fully annotated ones (unknown boundaries are no examples; tags on some tokens)
     &["P:火-星|猫 だ", "P:こ れ|は|猫/名詞|で-す", "火星 猫 だ", "P:a b|c", "P:猫 と 火-星|人/名詞", "P:で-す|か ら|猫|だ", "これ は 猫 です"],
+    // the large corpus again, but its very FIRST annotated boundary is a word boundary (the learner numbers its classes in
+    // the order in which they first appear: the word-boundary class is then class 0, not class 1)
+    &["は これ テスト です", "を パン かう", "これ は テスト です", "それ は ペン です", "あれ は カメラ です か", "わたし は パン を たべる", "かれ は サッカー が すき だ", "ここ に ノート が ある",
+      "テレビ を みる", "パン と ミルク を かう", "この カメラ は たかい", "あの ホテル に とまる", "バス で いく", "タクシー を よぶ", "まいにち コーヒー を のむ",
+      "その ドア を あける", "トマト と レタス の サラダ", "あたらしい パソコン が ほしい", "アルバイト を さがす", "きのう アルバイト に いった"],
 ];
 const TEXTS: [&str; 7] = ["火星猫だ", "これは猫です", "a", "abcab", "猫", "人が行った", "会を行って人と行った"];
 // all eight solvers of the trainer; the first two are the ones most cases use
@@ -139,6 +144,27 @@ fn check_inner(cw: u8, cn: u8, tw: u8, tn: u8, dict: u8, corpus: usize, solver: 
             if want != got {
                 return Some(format!("scores of {:?}: the learned quantised weights of the extracted features give {:?}, the trained model gives {:?}", raw, want, got));
             }
+        }
+    }
+    // direction of the learned function (the two large corpora, whatever class the learner saw first): the model is the one
+    // learned FOR THE WORD-BOUNDARY class, so on its own training sentences it agrees with the annotation on more than half
+    // of the boundaries (the mirrored model -- weights of the other class -- disagrees on more than half)
+    // (only with character n-gram features: with type unigrams alone a correctly trained model is right on fewer than half)
+    if (corpus == 5 || corpus == 9) && cw >= 1 && cn >= 1 {
+        let (m, _) = Model::read_slice(&bytes).ok()?;
+        let p = Predictor::new(m, false).ok()?;
+        let (mut agree, mut total) = (0usize, 0usize);
+        for gold in &sents {
+            let mut s = Sentence::from_raw(gold.as_raw_text().to_string()).unwrap();
+            p.predict(&mut s);
+            for (a, b) in s.boundaries().iter().zip(gold.boundaries()) {
+                total += 1;
+                if a == b { agree += 1; }
+            }
+        }
+        if std::env::var("VP_STATS").is_ok() { println!("STAT agree {}/{} corpus={} cfg={:?} solver={}", agree, total, corpus, (cw, cn, tw, tn, dict), solver); }
+        if 2 * agree < total {
+            return Some(format!("the trained model contradicts its own training annotation on {} of {} boundaries: it scores the class opposite to the word-boundary class", total - agree, total));
         }
     }
     // usable: re-read, both predictor flavours, predict + tag
